@@ -73,20 +73,19 @@ func (v *ScriptView) GenerateDatabaseScriptCreate(tableMap map[string]*sysl.Type
 	sort.Ints(depthsFound)
 	for _, depth := range depthsFound {
 		tableNames := completedTableDepthMap[depth]
-		var lineNumbers []int32
-		var entityNames []string
-		lineNumberMap := map[int32]string{}
-		for _, tableName := range tableNames {
-			table := tableMap[tableName]
-			lineNumber := table.GetSourceContext().GetStart().GetLine() //nolint:staticcheck
-			lineNumberMap[lineNumber] = tableName
-			lineNumbers = append(lineNumbers, lineNumber)
+		// order by source line; tables sharing a line (e.g. from different
+		// files) are ordered by name so that each is emitted exactly once
+		entityNames := append([]string(nil), tableNames...)
+		lineOf := func(name string) int32 {
+			return tableMap[name].GetSourceContext().GetStart().GetLine() //nolint:staticcheck
 		}
-		sort.Slice(lineNumbers, func(i, j int) bool { return lineNumbers[i] < lineNumbers[j] })
-		for _, lineNo := range lineNumbers {
-			entityName := lineNumberMap[lineNo]
-			entityNames = append(entityNames, entityName)
-		}
+		sort.Slice(entityNames, func(i, j int) bool {
+			li, lj := lineOf(entityNames[i]), lineOf(entityNames[j])
+			if li != lj {
+				return li < lj
+			}
+			return entityNames[i] < entityNames[j]
+		})
 		for _, entityName := range entityNames {
 			entityType := tableMap[entityName]
 			if relEntity := entityType.GetRelation(); relEntity != nil {
